@@ -174,7 +174,7 @@ def llm_case(case) -> List[Tuple[str, str]]:
                 s2.run(inp)
             with open(fx, "w") as f:
                 for p in probe:
-                    comp = "" if mode == "empty" else " ".join(f"w{i}" for i in range(40))
+                    comp = "" if mode == "empty" else str(case.get("sep", " ")).join(f"w{i}" for i in range(40))
                     f.write(json.dumps({"prompt_hash": real_hash(p), "completion": comp}) + "\n")
             s3 = Session(os.path.join(work, "s3"), base_cfg=base)
             o3 = s3.run(inp)
@@ -190,7 +190,7 @@ def llm_case(case) -> List[Tuple[str, str]]:
                 for e in o3["refl_new"]:
                     toks = len(str(e.get("text", "")).split())
                     if toks > tokens:
-                        fails.append(("SummaryWithinTokens", f"llm/present: summary has {toks} tokens > {tokens}"))
+                        fails.append(("SummaryWithinTokens", f"llm/present (words separated by {case.get('sep', ' ')!r}): summary has {toks} tokens > {tokens}"))
                 if tokens > 0 and n != 1:
                     fails.append(("RunsIffAllGates", f"llm/present tokens={tokens}: {n} entries written, expected 1"))
         return fails
@@ -251,9 +251,12 @@ def check(run) -> None:
             run.fail(clause, {"clause": clause, "reused_ctx": reuse}, cc, msg, replay={"case": cc})
     run.sample({"history": cases[len(cases) // 2]["h"]}, cap=2)
     lcases = [{"mode": m, "tokens": t, "workdir": run.workdir} for m in ("nofile", "noentry", "empty", "present") for t in ([3, 128] if q else [0, 1, 3, 128])]
+    # a model separates its words with whatever white space it likes (no-break space before French punctuation, ideographic
+    # space, line breaks): the token limit counts white-space separated words
+    lcases += [{"mode": "present", "tokens": t, "sep": sp, "workdir": run.workdir} for t in ([3] if q else [1, 3, 128]) for sp in ("\u00a0", "\u3000", " \n", "\u2009\u202f")]
     for c, fails in zip(lcases, pmap(llm_case, lcases, procs=4, chunk=1)):
         run.traces += 1
-        run.case(("llm", c["mode"], c["tokens"]))
+        run.case(("llm", c["mode"], c["tokens"], c.get("sep", " ")))
         if not fails:
             run.ok("Reflection.llm_fixture_conforms")
         for clause, msg in fails:
